@@ -214,8 +214,10 @@ class Param(Attrs):
     def expect(self):
         d = self.direction
         out = d in ('out', 'inout')
-        nullable = int(self.nullable or (self.allow_none and not out))
-        optional = int(self.optional or (self.allow_none and out))
+        # allow-none (deprecated) only decides when the GIR states neither nullable nor optional
+        modern = self.nullable or self.optional
+        nullable = int(self.nullable or (self.allow_none and not out and not modern))
+        optional = int(self.optional or (self.allow_none and out and not modern))
         e = {'name': self.name, 'in': int(d in ('in', 'inout')), 'out': int(out),
              'caller_allocates': int(d == 'out' and self.caller_allocates),
              'nullable': nullable, 'optional': optional,
